@@ -220,3 +220,11 @@ impl Highlighter for CicadaHighlighter {
 pub fn create_highlighter() -> Arc<CicadaHighlighter> {
     Arc::new(CicadaHighlighter)
 }
+
+#[cfg(cicada_verif)]
+pub mod verif_hooks {
+    use std::ops::Range;
+    pub fn find_token_range_heuristic(line: &str, start_byte: usize, token: &(String, String)) -> Option<Range<usize>> {
+        super::find_token_range_heuristic(line, start_byte, token)
+    }
+}
